@@ -326,6 +326,35 @@ def valid_phase(ctx, findings):
     return n
 
 
+def logsink_phase(ctx, exe, key, findings):
+    """The daemon as deployed (forked into the background) with each log sink: --syslog and --log-file.  Client-chosen text
+    reaches the log only through the error string of a response-type message sent to the daemon; it must be logged as data."""
+    n = 0
+    for sink in (["--syslog"], []):
+        d = rig.Daemon(ctx, exe, tag="sink", key=key, nthreads=2, foreground=False, extra=sink)
+        if not d.start():
+            findings.append({"kind": "daemon does not start in the background (%s)" % (" ".join(sink) or "--log-file"), "class": "logsink"})
+            continue
+        items = hostile.errstr_stream(ctx)
+        died = None
+        for cls, raw in items:
+            send_item(d.sock, raw)
+            n += 1
+            ctx.count((cls, raw[:80], " ".join(sink)))
+            if not d.alive():
+                died = (cls, raw)
+                break
+        c = None if died else rig.canary(d.sock)
+        rc, rep = d.stop()
+        kinds, frames = hostile.summarize_report(rep)
+        if died or c or kinds:
+            cls, raw = died if died else items[-1]
+            findings.append({"kind": ("daemon (background, %s) died" % (" ".join(sink) or "--log-file")) if died else
+                             ("after client-chosen error strings: " + c) if c else "sanitizer report with client-chosen error strings in the log",
+                             "class": cls, "raw_hex": raw.hex(), "sanitizer": kinds, "frames": frames})
+    return n
+
+
 def live_phase(ctx):
     exe, err = rig.build_daemon(ctx, san="address")
     if exe is None:
@@ -351,6 +380,7 @@ def live_phase(ctx):
     findings = []
     streams = [
         ("hdr", hostile.header_stream(ctx, creds[0][1])),
+        ("errstr", hostile.errstr_stream(ctx)),
         ("encreq", hostile.encreq_stream(ctx)),
         ("decreq", hostile.decreq_stream(ctx, creds[0][1])),
         ("armor", hostile.armor_stream(ctx, creds[0][1])),
@@ -369,6 +399,7 @@ def live_phase(ctx):
     stall_phase(ctx, exe, key, findings)
     oversize_phase(ctx, exe, key, findings)
     dist["valid"] = valid_phase(ctx, findings)
+    dist["logsink"] = logsink_phase(ctx, exe, key, findings)
     ctx.cov["input_distribution"] = dist
     # de-duplicate by (kind, top frame)
     seen = set()
